@@ -11,7 +11,8 @@ theorem parseLiteralFails_eq (sc : String) (v : Value) : parseLiteralFails sc v 
   by_cases hsp : specifiedScalars.contains sc = true
   · simp only [hsp, ↓reduceIte, Option.some.injEq]
     split <;> simp_all
-  · simp only [hsp, Bool.false_eq_true, ↓reduceIte, Bool.not_not]
+  · simp only [hsp, Bool.false_eq_true, ↓reduceIte]
+    cases v <;> rfl
 
 theorem scalarErrs_zero_iff (s : SchemaD) (t : TI) (v : Value) :
     scalarErrs s t v = 0 ↔ ∀ it, t.inputType = some it → isScalar s it.base = true ∧ scalarAccepts it.base v = true := by
